@@ -62,7 +62,7 @@ def mResult (r : PyM M) (envs : List String) : String :=
 /-- ops on parsed markers: mparse, mop, mun, monly, mexcl, mreduce, gpc, cnm -/
 def handleMarkerOps (op : String) (args : List String) : Option String :=
   match op, args with
-  | "mparse", text :: envs => some (mResult (parseMarker text) envs)
+  | "mparse", text :: envs => some (mResult (parseMarkerTop text) envs)
   | "mop", o :: a :: b :: envs =>
     some <| match parseMarker a, parseMarker b with
     | .ok x, .ok y =>
